@@ -200,6 +200,17 @@ def run_family(run, exe, prop, configs, parallel=5, workers=3, env=None, cap_tou
                 run.violation(tag, path, "Mu.tla (constants from the code) refutes %s in configuration %s; %s" % (f["name"], name, detail))
             else:
                 run.note("spec-level refutation NOT reproduced on the code (%s): %s" % (tag, detail))
+        if out["res"]["mismatch"]:
+            # DESIGN 3.7: a divergence is not a violation; it triggers extra exploration of that configuration, judged by oracles only
+            nloc = 20000 if run.tier == "quick" else 300000
+            resx = run_harness_env(exe, ["random", str(nloc), str(seed() + 7), out["init"], REPLAYS], out["env"])
+            run.add("evaluations", nloc); run.add("distinct_nontrivial", resx["stats"].get("nontrivial", 0))
+            run.cov.setdefault("local_exploration_after_divergence", []).append({"config": name, "runs": nloc, "violations": len(resx["viols"])})
+            for v in resx["viols"]:
+                if v[0] in wanted_or:
+                    run.violation("%s|%s|explore %s" % (v[0], v[1], name), v[4], v[5])
+                else:
+                    run.note("oracle of another property fired while exploring %s after a divergence: %s %s: %s" % (name, v[0], v[1], v[5][:160]))
         try:
             os.unlink(out["sched"])
         except OSError:
@@ -253,7 +264,7 @@ def mu_check(prop, tier, replay, extra_rule="", extra_assume=(), env=None, post=
     fam = family if family is not None else muconfigs.family(prop, tier)
     results = run_family(run, exe, prop, fam, env=e, cap_tours=cap_tours)
     # oracle-only exploration of richer programs under random and priority-based schedules
-    nruns = 400 if tier == "quick" else 20000
+    nruns = 4000 if tier == "quick" else 100000
     for i, conf in enumerate(muconfigs.RANDOM.get(prop, [])):
         res = run_harness_env(exe, ["random", str(nruns), str(seed() + i), muconf.init_line(conf), REPLAYS], e)
         run.add("evaluations", nruns); run.add("distinct_nontrivial", res["stats"].get("nontrivial", 0))
